@@ -406,7 +406,12 @@ func init() {
 		}
 		return strconv.FormatUint(args[0].(uint64), args[1].(int))
 	}
-	x["strconv.Itoa"] = func(fr *frame, args []value) value { return strconv.Itoa(args[0].(int)) }
+	x["strconv.Itoa"] = func(fr *frame, args []value) value {
+		if s, ok := args[0].(SymInt); ok {
+			return "<sym " + s.T.String() + ">"
+		}
+		return strconv.Itoa(args[0].(int))
+	}
 	x["strconv.ParseUint"] = func(fr *frame, args []value) value {
 		v, err := strconv.ParseUint(strOf(args[0]), args[1].(int), args[2].(int))
 		if err != nil {
